@@ -110,6 +110,34 @@ static int32_t repair_torn_link(struct jls_core_s * core, int64_t pos) {
     return jls_raw_seek_end(core->raw);
 }
 
+/**
+ * @brief End a chunk list at its last chunk that is still in the file.
+ *
+ * A file that lost its tail (and not just its last writes) has chunks whose
+ * item_next leads behind the new end, where the repair is about to append.
+ *
+ * @param core The core instance, opened for append.
+ * @param offset The offset of the first chunk of the list.
+ */
+static int32_t repair_list_end(struct jls_core_s * core, int64_t offset) {
+    struct jls_core_chunk_s last = {.offset = 0};
+    struct jls_chunk_header_s hdr;
+    while (offset) {
+        if (jls_raw_chunk_seek(core->raw, offset) || jls_raw_rd_header(core->raw, &hdr)) {
+            if (last.offset) {
+                JLS_LOGW("chunk %" PRIi64 ": removing link to missing chunk %" PRIi64, last.offset, offset);
+                last.hdr.item_next = 0;
+                ROE(jls_core_update_chunk_header(core, &last));
+            }
+            break;
+        }
+        last.hdr = hdr;
+        last.offset = offset;
+        offset = (int64_t) hdr.item_next;
+    }
+    return jls_raw_seek_end(core->raw);
+}
+
 static int32_t rd_open(struct jls_rd_s ** instance, const char * path, bool repair) {
     int32_t rc = 0;
     if (!instance) {
@@ -170,6 +198,9 @@ static int32_t rd_open(struct jls_rd_s ** instance, const char * path, bool repa
         GOE(jls_raw_chunk_seek(core->raw, pos));
         GOE(jls_raw_wr(core->raw, &core->chunk_cur.hdr, core->buf->cur));
         GOE(repair_torn_link(core, pos));
+        GOE(repair_list_end(core, core->user_data_head.offset));
+        GOE(repair_list_end(core, core->source_head.offset));
+        GOE(repair_list_end(core, core->signal_head.offset));
 
         for (uint16_t signal_idx = 0; signal_idx < JLS_SIGNAL_COUNT; ++signal_idx) {
             struct jls_core_signal_s * signal_info = &core->signal_info[signal_idx];
